@@ -152,6 +152,18 @@ def oracle_graph(case):
             return sorted(set(r))
         if sorted(set(x.name for x in s.neighbours)) != others(dl + dr):
             out.append(('neighbours of %s' % s.name, others(dl + dr), sorted(set(x.name for x in s.neighbours))))
+        # one entry per dovetail line (a line from the segment to itself is listed at both ends but counts once)
+        def per_line(ls):
+            r = []
+            for l in sorted(set(ls)):
+                f = l.split('\t')
+                a, b = (f[1], f[3]) if f[0] == 'L' else (f[2][:-1], f[3][:-1])
+                r.append(b if a == s.name else a)
+            return sorted(r)
+        for what, got, want_l in (('neighbours', s.neighbours, dl + dr), ('neighbours_L', s.neighbours_L, dl), ('neighbours_R', s.neighbours_R, dr)):
+            names = sorted(x.name for x in got)
+            if names != per_line(want_l):
+                out.append(('%s of %s does not list one entry per dovetail line' % (what, s.name), per_line(want_l), names))
         if G.version == 'gfa1':
             cont = sorted(set(l.split('\t')[3] for l in want.get('edges_to_contained', [])))
             ctrs = sorted(set(l.split('\t')[1] for l in want.get('edges_to_containers', [])))
